@@ -428,7 +428,8 @@ fn render0(r: &mut Rng, c: &Call) -> Option<String> {
             (a, b) => Some(format!("{}{};{}r", csi, ps(a), ps(b))),
         },
         DefineCharset(code, mode) => {
-            if mode == "(" || mode == ")" {
+            // an empty code would leave the recogniser waiting for the designator's final character
+            if (mode == "(" || mode == ")") && code.chars().count() == 1 {
                 Some(format!("\x1b{}{}", mode, code))
             } else {
                 None
